@@ -17,6 +17,7 @@ import (
 
 	"github.com/nspcc-dev/neo-go/pkg/core/block"
 	"github.com/nspcc-dev/neo-go/pkg/core/transaction"
+	"github.com/nspcc-dev/neo-go/pkg/neotest"
 	"github.com/nspcc-dev/neo-go/pkg/smartcontract/trigger"
 	"github.com/nspcc-dev/neo-go/pkg/vm/stackitem"
 	"github.com/nspcc-dev/neo-go/pkg/vm/vmstate"
@@ -41,6 +42,7 @@ type c05BlockRec struct {
 	Skipped []int      `json:"skipped,omitempty"`
 	Dump    *c05Dump   `json:"dump"`
 	blk     *block.Block
+	csigs   map[int][]int // op index -> committee key ids a committee-only operation was co-signed with
 }
 
 type c05Runner struct {
@@ -50,7 +52,36 @@ type c05Runner struct {
 	skipped []int
 	blocks  []*c05BlockRec
 	nops    int
+	csigs   map[int][]int
 	onBlock func(*c05BlockRec) // called after every block
+}
+
+// c05NewRunner starts a history: block 1 deploys the three callback contracts (operation index -1).
+func c05NewRunner(c *c05Chain, onBlock func(*c05BlockRec)) (*c05Runner, error) {
+	r := &c05Runner{c: c, onBlock: onBlock, csigs: map[int][]int{}}
+	cs := c05Compile(c.t, c.u.hashes[c05AValidators])
+	for _, ct := range []*neotest.Contract{cs.acceptor, cs.nocb, cs.rejector} {
+		mb, _ := json.Marshal(ct.Manifest)
+		nb, _ := ct.NEF.Bytes()
+		tx, err := c.mkTx(c.mgmtH, "deploy", []any{nb, mb, nil}, 20_0000_0000, nil, c05AValidators)
+		if err != nil {
+			return nil, err
+		}
+		if err := c.bc.PoolTx(tx); err != nil {
+			return nil, err
+		}
+		r.pending = append(r.pending, tx)
+		r.pendOps = append(r.pendOps, -1)
+	}
+	if err := r.flush(); err != nil {
+		return nil, err
+	}
+	for _, t := range r.blocks[0].Txs {
+		if !t.Halt {
+			return nil, fmt.Errorf("prelude deploy failed")
+		}
+	}
+	return r, nil
 }
 
 // submit builds the transaction of one operation and offers it to the real memory pool: what the pool refuses
@@ -70,6 +101,15 @@ func (r *c05Runner) submit(op c05Op) error {
 		r.skipped = append(r.skipped, i)
 		return nil
 	}
+	if c05IsCommitteeOp(op.T) {
+		var ks []int
+		if pubs, err := r.c.bc.GetCommittee(); err == nil {
+			for _, p := range pubs {
+				ks = append(ks, r.c.u.key(p.Bytes()))
+			}
+		}
+		r.csigs[i] = ks
+	}
 	r.pending = append(r.pending, tx)
 	r.pendOps = append(r.pendOps, i)
 	return nil
@@ -81,7 +121,7 @@ func (r *c05Runner) flush() error {
 	if err != nil {
 		return err
 	}
-	rec := &c05BlockRec{Index: b.Index, Skipped: r.skipped, blk: b}
+	rec := &c05BlockRec{Index: b.Index, Skipped: r.skipped, blk: b, csigs: r.csigs}
 	baers, err := c.bc.GetAppExecResults(b.Hash(), trigger.All)
 	if err != nil || len(baers) != 2 {
 		return fmt.Errorf("block %d: %d block-level execution results (%v)", b.Index, len(baers), err)
@@ -279,15 +319,40 @@ func c05Invariants(prev, cur *c05Dump, rec *c05BlockRec) []string {
 // ---------- generator ----------
 
 type c05Gen struct {
-	r   *rng
-	c   *c05Chain
-	run *c05Runner
-	ops []c05Op
+	r    *rng
+	c    *c05Chain
+	run  *c05Runner
+	ops  []c05Op
+	snap *c05Dump // storage at the last block boundary: steers the choice of operands (never the outcome)
 }
 
 func (g *c05Gen) emit(op c05Op) error {
 	g.ops = append(g.ops, op)
-	return g.run.submit(op)
+	err := g.run.submit(op)
+	if op.T == "blk" || g.snap == nil {
+		g.snap = c05DumpChain(g.c.bc, g.c.u)
+	}
+	return err
+}
+
+// registered candidate keys / blocked accounts / accounts with a deposit (expired or not) at the last boundary
+func (g *c05Gen) registered() []int {
+	var l []int
+	for _, cd := range g.snap.Cands {
+		if cd.Reg && cd.K < len(g.c.u.keys) {
+			l = append(l, cd.K)
+		}
+	}
+	return l
+}
+func (g *c05Gen) depositors(expired bool) []int {
+	var l []int
+	for _, d := range g.snap.Deposits {
+		if d.A >= 1 && d.A <= 14 && (!expired || d.Till <= g.snap.Height) {
+			l = append(l, d.A)
+		}
+	}
+	return l
 }
 
 func (g *c05Gen) neoBal(a int) int64 {
@@ -375,8 +440,11 @@ func (g *c05Gen) randomOp() c05Op {
 	if r.chance(6) {
 		a = c05AValidators
 	}
-	cand := func() int { // mostly keys that are (or may become) candidates
-		if r.chance(10) {
+	cand := func() int { // mostly registered candidates
+		if reg := g.registered(); len(reg) > 0 && r.chance(75) {
+			return pick(r, reg)
+		}
+		if r.chance(30) {
 			return r.intn(len(g.c.u.keys))
 		}
 		return g.c.u.keyOfAcct[pick(r, c05Signers[:10])]
@@ -424,7 +492,7 @@ func (g *c05Gen) randomOp() c05Op {
 		return c05Op{T: "unreg", F: a}
 	case x < 75:
 		h := int(g.c.bc.BlockHeight())
-		till := h + 2 + r.intn(6)
+		till := h + 2 + r.intn(4)
 		if r.chance(10) {
 			till = h + r.intn(2) // too early: refused
 		}
@@ -442,12 +510,20 @@ func (g *c05Gen) randomOp() c05Op {
 		if r.chance(40) {
 			to = g.receiver()
 		}
+		if l := g.depositors(true); len(l) > 0 && r.chance(70) {
+			a = pick(r, l)
+		} else if l := g.depositors(false); len(l) > 0 && r.chance(50) {
+			a = pick(r, l)
+		}
 		op := c05Op{T: "wd", F: a, To: to}
 		if r.chance(10) {
 			op.W = pick(r, c05Signers) // somebody else's deposit: not witnessed
 		}
 		return op
 	case x < 84:
+		if l := g.depositors(false); len(l) > 0 && r.chance(70) {
+			a = pick(r, l)
+		}
 		return c05Op{T: "lock", F: a, N: int(g.c.bc.BlockHeight()) + r.intn(8)}
 	case x < 88:
 		return c05Op{T: "fault", F: a, To: g.receiver(), A: g.amount(g.neoBal(a))}
@@ -463,8 +539,40 @@ func (g *c05Gen) randomOp() c05Op {
 	case x < 98:
 		return c05Op{T: "block", To: pick(r, c05Signers)}
 	default:
+		if len(g.snap.Blocked) > 0 && r.chance(80) {
+			return c05Op{T: "unblock", To: pick(r, g.snap.Blocked)}
+		}
 		return c05Op{T: "unblock", To: pick(r, c05Signers)}
 	}
+}
+
+// governance push: six or more candidates registered and voted by holders of >= 20% of the supply, so that the
+// committee is elected (voter rewards, committee changes at epoch boundaries)
+func (g *c05Gen) push() error {
+	r := g.r
+	cands := append([]int{}, c05Signers...)
+	for i := len(cands) - 1; i > 0; i-- {
+		j := r.intn(i + 1)
+		cands[i], cands[j] = cands[j], cands[i]
+	}
+	n := 6 + r.intn(3)
+	for i := 0; i < n; i++ {
+		if err := g.emit(c05Op{T: "nt", F: 0, To: 1 + i, A: int64(n-i)*1_000_000 + int64(r.intn(1000))}); err != nil {
+			return err
+		}
+		if err := g.emit(c05Op{T: "reg", F: cands[i]}); err != nil {
+			return err
+		}
+	}
+	if err := g.emit(c05Op{T: "blk"}); err != nil {
+		return err
+	}
+	for i := 0; i < n; i++ {
+		if err := g.emit(c05Op{T: "vote", F: 1 + i, To: cands[i]}); err != nil {
+			return err
+		}
+	}
+	return g.emit(c05Op{T: "blk"})
 }
 
 // c05Generate runs one random history on a fresh chain and returns the operations it consisted of.
@@ -472,6 +580,11 @@ func c05Generate(r *rng, c *c05Chain, run *c05Runner, nblocks int) ([]c05Op, err
 	g := &c05Gen{r: r, c: c, run: run}
 	if err := g.fund(r.chance(60)); err != nil {
 		return g.ops, err
+	}
+	if r.chance(50) {
+		if err := g.push(); err != nil {
+			return g.ops, err
+		}
 	}
 	for b := 0; b < nblocks; b++ {
 		n := r.intn(6)
@@ -509,15 +622,17 @@ func c05RunCase(co *caseOut, in c05Input, gen func(c *c05Chain, run *c05Runner) 
 		return err
 	}
 	defer c.close()
-	run := &c05Runner{c: c}
 	var prev = c05DumpChain(c.bc, c.u)
 	var viol []string
 	var violAt uint32
-	run.onBlock = func(rec *c05BlockRec) {
+	run, err := c05NewRunner(c, func(rec *c05BlockRec) {
 		if bad := c05Invariants(prev, rec.Dump, rec); len(bad) > 0 && viol == nil {
 			viol, violAt = bad, rec.Index
 		}
 		prev = rec.Dump
+	})
+	if err != nil {
+		return err
 	}
 	if gen != nil {
 		in.Ops, err = gen(c, run)
@@ -568,6 +683,9 @@ func c05Tag(ops []c05Op, blocks []*c05BlockRec) (string, bool) {
 	var votes, cands, failed, notary int
 	for _, b := range blocks {
 		for _, t := range b.Txs {
+			if t.Op < 0 {
+				continue
+			}
 			op := ops[t.Op]
 			switch op.T {
 			case "vote":
